@@ -24,10 +24,20 @@ namespace Reader
 def str (env : Env) (r : Reader) (k : Nat) : Option Bytes := strAt env r.arena.read r.strings k
 def get (env : Env) (r : Reader) (x : Bytes) : Out (Option Nat) := tableFind env r.arena.read r.strings r.table x
 def intoResolver (r : Reader) : Resolver := { strings := r.strings, arena := r.arena, N := r.N }
+def resolve (env : Env) (r : Reader) (k : Nat) : Out Bytes := resolveIn env r.arena.read r.strings k
+def tryResolve (env : Env) (r : Reader) (k : Nat) : Out (Option Bytes) := tryResolveIn env r.arena.read r.strings k
+def resolveUnchecked (env : Env) (r : Reader) (k : Nat) : Out Bytes := resolveUncheckedIn env r.arena.read r.strings k
+def iter (env : Env) (r : Reader) : Out (List (Nat × Bytes)) := iterIn env r.arena.read r.N r.strings 0
+def containsKey (r : Reader) (k : Nat) : Bool := k < r.strings.length
 end Reader
 
 namespace Resolver
 def str (env : Env) (r : Resolver) (k : Nat) : Option Bytes := strAt env r.arena.read r.strings k
+def resolve (env : Env) (r : Resolver) (k : Nat) : Out Bytes := resolveIn env r.arena.read r.strings k
+def tryResolve (env : Env) (r : Resolver) (k : Nat) : Out (Option Bytes) := tryResolveIn env r.arena.read r.strings k
+def resolveUnchecked (env : Env) (r : Resolver) (k : Nat) : Out Bytes := resolveUncheckedIn env r.arena.read r.strings k
+def iter (env : Env) (r : Resolver) : Out (List (Nat × Bytes)) := iterIn env r.arena.read r.N r.strings 0
+def containsKey (r : Resolver) (k : Nat) : Bool := k < r.strings.length
 end Resolver
 
 namespace Rodeo
@@ -70,6 +80,20 @@ def str (env : Env) (t : Threaded) (k : Nat) : Option Bytes :=
   match t.resolveRef k with
   | some r => t.content env r
   | none => none
+
+/-- `resolve`: `strings.get(key).expect("Key out of bounds")`. -/
+def resolve (env : Env) (t : Threaded) (k : Nat) : Out Bytes :=
+  match t.resolveRef k with
+  | some r => match t.content env r with
+    | some b => .ok b
+    | none => .fault .oobIndex
+  | none => .panic
+def tryResolve (env : Env) (t : Threaded) (k : Nat) : Out (Option Bytes) :=
+  match t.resolveRef k with
+  | some r => match t.content env r with
+    | some b => .ok (some b)
+    | none => .fault .oobIndex
+  | none => .ok none
 
 def len (t : Threaded) : Nat := t.strs.length
 def containsKey (t : Threaded) (k : Nat) : Bool := (t.resolveRef k).isSome
